@@ -39,7 +39,9 @@ def _sh1_sites(shapes, fi, r):
             # variable index: only the `while i < len(x): x[i]` idiom
             ok = truth(("cmp", "Lt", idx, ("call", ("builtin", "len"), (e.base,), ())), e.state.facts) is True
             if not ok and not _mapping_like(e.base):
-                sites.setdefault((id(node), "var"), [node, show(e.base), show(idx), []])[3].append(("var", False))
+                # a computed index without a visible bound is not decided by this rule (it would need value ranges);
+                # the compiled scanners' reads, where the bound matters most, are covered by LA
+                continue
             elif ok:
                 sites.setdefault((id(node), "var"), [node, show(e.base), show(idx), []])[3].append(("i < len(x)", True))
             continue
@@ -74,15 +76,20 @@ def sh1(ctx: Ctx, shapes: Shapes, funcs=None, floor=25):
                    where(fi, node), sample=f"non-empty on all {len(results)} reaching state(s)")
 
 
-def suppressed_index_error(state):
-    """Inside `with suppress(IndexError)` (or a `try` whose handler catches it) the failed subscript is the handled case."""
+def suppressed(state, exc, supers):
+    """Inside `with suppress(<exc>)` or a `try` whose handler catches <exc> (or a superclass) the failing operation is the
+    handled case."""
+    names = (exc,) + tuple(supers)
     for c in state.ctx:
-        if c[0] == "with" and any("suppress" in show(x) and "IndexError" in show(x) for x in c[1]):
+        if c[0] == "with" and any("suppress" in show(x) and any(n in show(x) for n in names) for x in c[1]):
             return True
-        if c[0] == "try" and any(h in ("IndexError", "LookupError", "Exception", "BaseException") or
-                                 ("IndexError" in h and h.startswith("(")) for h in c[1]):
+        if c[0] == "try" and any(h in names or (h.startswith("(") and any(n in h for n in names)) for h in c[1]):
             return True
     return False
+
+
+def suppressed_index_error(state):
+    return suppressed(state, "IndexError", ("LookupError", "Exception", "BaseException"))
 
 
 def _mapping_like(t):
@@ -157,7 +164,8 @@ def sh3(ctx: Ctx, floor=4):
                 continue
             ctx.instance(rule)
             k = e.index[1]
-            ok = any(t[0] == "call" and t[1][2] in filler and k in filler[t[1][2]] for t in e.state.trace)
+            ok = any(t[0] == "call" and t[1][2] in filler and k in filler[t[1][2]] for t in e.state.trace) or \
+                suppressed(e.state, "KeyError", ("LookupError", "Exception", "BaseException"))     # EAFP: the miss is handled
             ctx.ob(rule, fi.qual, f"self._cache[{k!r}]", ok,
                    f"cache key {k!r} is loaded without a preceding call that stores it on every path: KeyError",
                    where(fi, e.node), sample="preceded by a call to a method that always stores the key")
